@@ -467,3 +467,55 @@ Definition handle4 (line : str) : str :=
       | None => handle3 line
       end
   end.
+
+(* ---------- `laze build [task]` after generation: ninja argv, executed tasks, exit code ---------- *)
+Require Import Laze.model.Tasks.
+
+Definition rd_optnat : rd (option nat) := fun ts =>
+  match ts with
+  | t :: r => if str_eqb t (S_ "-") then Some (None, r)
+              else match parse_dec t with Some n => Some (Some (N.to_nat n), r) | None => None end
+  | [] => None end.
+
+(* <task|-> <generate_only> <multiple> <keep_going> <jobs|-> <verbose> <ninja_ok 0|1> <nfail> {builder app} *)
+Record main_req := {
+  mr_task : option str; mr_generate_only : bool; mr_multiple : bool; mr_keep_going : nat;
+  mr_jobs : option nat; mr_verbose : nat; mr_ninja_ok : bool; mr_failing : list (str * str) }.
+
+Definition rd_main_req : rd main_req :=
+  rd_bind rd_opt (fun task => rd_bind rd_bool (fun go => rd_bind rd_bool (fun mult => rd_bind rd_n (fun kg =>
+  rd_bind rd_optnat (fun jobs => rd_bind rd_n (fun verb => rd_bind rd_bool (fun nok =>
+  rd_bind (rd_list rd_pair) (fun failing =>
+  rd_ret {| mr_task := task; mr_generate_only := go; mr_multiple := mult; mr_keep_going := N.to_nat kg;
+            mr_jobs := jobs; mr_verbose := N.to_nat verb; mr_ninja_ok := nok; mr_failing := failing |})))))))).
+
+Definition show_action (a : action) : str :=
+  match a with
+  | ANinja argv => S_ " N " ++ show_list argv
+  | ATask b app => S_ " T " ++ hex b ++ S_ " " ++ hex app
+  end.
+
+Definition handle_main (cmd : str) (ts : list str) : option str :=
+  if str_eqb cmd (S_ "main") then
+    Some (run (rd_bind rd_ytree (fun t => rd_bind rd_cli (fun c => rd_bind rd_main_req (fun m =>
+               rd_bind rd_evtable (fun ev => rd_ret (t, c, m, ev)))))) ts
+              (fun '(t, c, m, ev) =>
+                 show_res (fun x => x)
+                   (rbind (run_gen ev t c) (fun g =>
+                    let file := path_push (le_build_dir (cl_le c))
+                                  (match cl_local c with Some _ => S_ "build-local.ninja" | None => S_ "build-global.ninja" end) in
+                    let mc := {| mc_builders := cl_builders c; mc_apps := cl_apps c; mc_task := mr_task m;
+                                 mc_generate_only := mr_generate_only m; mc_multiple := mr_multiple m;
+                                 mc_keep_going := mr_keep_going m; mc_jobs := mr_jobs m; mc_verbose := mr_verbose m |} in
+                    let o := main_after_generate (fun _ => mr_ninja_ok m)
+                               (fun b a => negb (existsb (fun p => str_eqb (fst p) b && str_eqb (snd p) a) (mr_failing m)))
+                               (gr_builds g) file mc in
+                    Ok (S_ "ok " ++ show_dec (N.of_nat (o_exit o)) ++ S_ " " ++ show_dec (N.of_nat (length (o_actions o))) ++
+                        flat_map show_action (o_actions o))))))
+  else None.
+
+Definition handle5 (line : str) : str :=
+  match tokens line with
+  | [] => S_ "badrequest"
+  | cmd :: ts => match handle_main cmd ts with Some r => r | None => handle4 line end
+  end.
